@@ -898,8 +898,117 @@ def unelse_after_exit(fnode):
     return changed
 
 
+def _resolve_callee(repo, f, c, local):
+    """qualified name of the repository callable a call names directly (module-level function, class -> its __init__ or the class itself for a
+    plain record, self.method / cls.method of the enclosing class) and the parameter names its arguments bind to; (None, None) otherwise"""
+    def plain_params(g, drop_first):
+        a = g.node.args
+        if a.vararg or a.kwarg or a.posonlyargs or any(U(d).split("(")[0] not in ("staticmethod", "classmethod", "property") for d in g.node.decorator_list):
+            return None
+        ps = [p.arg for p in a.args]
+        return ps[1:] if drop_first else ps
+    fn = c.func
+    if isinstance(fn, ast.Name) and fn.id not in local:
+        q = repo.chase(f.mod, fn.id)
+        if q in repo.funcs and not repo.funcs[q].cls:
+            return q, plain_params(repo.funcs[q], False)
+        if q in repo.classes:
+            init = repo.lookup_method(q, "__init__")
+            if init:
+                return q, plain_params(repo.funcs[init], True)
+            return q, record_fields(repo, f.mod, fn.id)
+    elif isinstance(fn, ast.Attribute) and isinstance(fn.value, ast.Name) and fn.value.id in ("self", "cls") and f.cls:
+        m = repo.lookup_method(f.class_q, fn.attr)
+        if m:
+            g = repo.funcs[m]
+            return m, plain_params(g, not g.is_static)
+    elif isinstance(fn, ast.Attribute) and isinstance(fn.value, ast.Name) and fn.value.id not in local:
+        # ClassName.method(..): a static / class method called on the class
+        cq = repo.chase(f.mod, fn.value.id)
+        if cq in repo.classes:
+            m = repo.lookup_method(cq, fn.attr)
+            if m and (repo.funcs[m].is_static or repo.funcs[m].is_classmethod):
+                g = repo.funcs[m]
+                return m, plain_params(g, not g.is_static)
+    return None, None
+
+
+def call_conventions(repo):
+    """{callee: {parameter: "pos" | "kw" | "mixed"}} as the calls of the analysed tree spell them (used to freeze tables/call_conventions.json
+    from the reviewed tree)"""
+    conv = {}
+    for f in repo.funcs.values():
+        local = {x.id for x in ast.walk(f.node) if isinstance(x, ast.Name) and isinstance(x.ctx, ast.Store)} | {p.arg for p in ast.walk(f.node.args) if isinstance(p, ast.arg)} - {"self", "cls"}
+        for c in ast.walk(f.node):
+            if not isinstance(c, ast.Call) or any(isinstance(a, ast.Starred) for a in c.args) or any(k.arg is None for k in c.keywords):
+                continue
+            q, params = _resolve_callee(repo, f, c, local)
+            if not q or not params or len(c.args) > len(params):
+                continue
+            d = conv.setdefault(q, {})
+            for p_ in params[:len(c.args)]:
+                d[p_] = "pos" if d.get(p_, "pos") == "pos" else "mixed"
+            for k in c.keywords:
+                if k.arg in params:
+                    d[k.arg] = "kw" if d.get(k.arg, "kw") == "kw" else "mixed"
+    return conv
+
+
+def respell_calls(repo):
+    """Whether an argument is passed by position or by keyword does not change the call.  Every call of a repository callable that is named
+    directly is brought to the spelling the reviewed tree uses for that callable (tables/call_conventions.json, frozen by
+    bin/gen_call_conventions.py): a parameter the reviewed tree always passes by keyword is passed by keyword, one it always passes by
+    position is passed by position (when every earlier parameter is).  On the reviewed tree this changes nothing by construction; a
+    call respelled by a later change reads like its reviewed siblings.  Callables not in the table are left as written."""
+    import json
+    import os
+    table = os.path.join(os.path.dirname(os.path.dirname(os.path.abspath(__file__))), "tables", "call_conventions.json")
+    if not os.path.exists(table):
+        return 0
+    conv = json.load(open(table))
+    changed = 0
+    for f in repo.funcs.values():
+        local = {x.id for x in ast.walk(f.node) if isinstance(x, ast.Name) and isinstance(x.ctx, ast.Store)} | {p.arg for p in ast.walk(f.node.args) if isinstance(p, ast.arg)} - {"self", "cls"}
+        touched = False
+        for c in ast.walk(f.node):
+            if not isinstance(c, ast.Call) or any(isinstance(a, ast.Starred) for a in c.args) or any(k.arg is None for k in c.keywords):
+                continue
+            q, params = _resolve_callee(repo, f, c, local)
+            if not q or not params or q not in conv or len(c.args) > len(params):
+                continue
+            want = conv[q]
+            bound = dict(zip(params, c.args))
+            kws = {k.arg: k.value for k in c.keywords}
+            if set(bound) & set(kws) or not set(kws) <= set(params):
+                continue
+            bound.update(kws)
+            # leading parameters that the table passes by position and that are given: positional, in order, without a gap
+            n_pos = 0
+            for p_ in params:
+                if p_ in bound and want.get(p_) == "pos" and n_pos == params.index(p_):
+                    n_pos += 1
+                elif p_ in bound and p_ in dict(zip(params, c.args)) and want.get(p_, "mixed") != "kw" and n_pos == params.index(p_):
+                    n_pos += 1          # written by position, no keyword convention: stays
+                else:
+                    break
+            new_args = [bound[p_] for p_ in params[:n_pos]]
+            written_kw_order = [k.arg for k in c.keywords]
+            rest = [p_ for p_ in params[n_pos:] if p_ in bound]
+            # keep the written order of the keywords that stay keywords; former positionals that become keywords go first, in parameter order
+            former_pos = [p_ for p_ in rest if p_ not in kws]
+            new_kws = [ast.keyword(arg=p_, value=bound[p_]) for p_ in former_pos] + [ast.keyword(arg=a_, value=bound[a_]) for a_ in written_kw_order if a_ in rest]
+            if [U(a) for a in new_args] != [U(a) for a in c.args] or [k.arg for k in new_kws] != [k.arg for k in c.keywords]:
+                c.args, c.keywords = new_args, new_kws
+                touched = True
+        if touched:
+            ast.fix_missing_locations(f.node)
+            changed += 1
+    return changed
+
+
 def apply_synonyms(repo):
     n = 0
+    respell_calls(repo)
     for f in repo.funcs.values():
         before = ast.dump(f.node)
         unelse_after_exit(f.node)
